@@ -1,4 +1,5 @@
 import Proofs.LexerRegex
+import Proofs.RegexOrder
 
 /-!
 The string rule.  Proved here: every prefix the regex of `tokStringRule`
@@ -264,5 +265,234 @@ theorem pmatch_stringRe_sound (s w : Bytes) (h : pmatch stringRe s = some w) :
     Lexer.matchString s = some w := by
   obtain ⟨post, rfl, hm⟩ := pmatch_sound h
   exact string_matches_sound w post hm
+
+/-! ### the converse: what `matchString` returns is matched by the regex -/
+
+set_option maxRecDepth 100000 in
+theorem ruleEsc_cases : ∀ c : UInt8, ∀ kh, Lexer.ruleEsc c = some kh →
+    (kh = (0, true) ∧ cok simpleEscR c = true) ∨ (kh = (2, false) ∧ cok [(48, 55)] c = true) ∨
+    (kh = (2, true) ∧ cok [(120, 120)] c = true) ∨ (kh = (4, true) ∧ cok [(117, 117)] c = true) ∨
+    (kh = (8, true) ∧ cok [(85, 85)] c = true) := by
+  apply forall_byte
+  intro n kh h
+  revert kh
+  revert n
+  decide
+
+set_option maxRecDepth 100000 in
+theorem hex_cok : ∀ c : UInt8, Lexer.isHex c = true → cok hexR c = true := by
+  apply forall_byte; decide
+
+set_option maxRecDepth 100000 in
+theorem oct_cok : ∀ c : UInt8, Lexer.isOct c = true → cok [(48, 55)] c = true := by
+  apply forall_byte; decide
+
+set_option maxRecDepth 100000 in
+theorem plain_ascii : ∀ c : UInt8, plain c = true → inR [(92, 92), (34, 34)] c = false := by
+  apply forall_byte; decide
+
+theorem digitsOK_cok_hex (args : Bytes) (h : Lexer.digitsOK true args = true) : ∀ c ∈ args, cok hexR c = true := by
+  simp only [Lexer.digitsOK, if_true, List.all_eq_true] at h
+  intro c hc; exact hex_cok c (h c hc)
+
+theorem digitsOK_cok_oct (args : Bytes) (h : Lexer.digitsOK false args = true) :
+    ∀ c ∈ args, cok [(48, 55)] c = true := by
+  simp only [Lexer.digitsOK, Bool.false_eq_true, if_false, List.all_eq_true] at h
+  intro c hc; exact oct_cok c (h c hc)
+
+theorem rep_cls_exact {rs : Ranges} {n : Nat} {pre w post : Bytes} (hl : w.length = n)
+    (h : ∀ c ∈ w, cok rs c = true) : Matches (.rep (.cls rs) n (some n)) pre w post :=
+  (Matches_rep_cls _ _ _ _ _ _).mpr ⟨by omega, (by intro M hM; injection hM with hM; omega), h⟩
+
+/-- an escape `\c2 args` that `scanBody` accepts is matched by the escape
+alternatives of the regex -/
+theorem esc_matches (c2 : UInt8) (k : Nat) (hex : Bool) (args pre post : Bytes)
+    (hr : Lexer.ruleEsc c2 = some (k, hex)) (hl : args.length = k) (hd : Lexer.digitsOK hex args = true) :
+    Matches itemRe pre (0x5C :: c2 :: args) post := by
+  have hbs : Matches (.cls [(92, 92)]) pre [0x5C] ((c2 :: args) ++ post) :=
+    (Matches_cls_iff _ _ _ _).mpr ⟨0x5C, rfl, by decide⟩
+  refine Or.inr ⟨[0x5C], c2 :: args, rfl, hbs, ?_⟩
+  have hcls : ∀ (rs : Ranges) (p q : Bytes), cok rs c2 = true → Matches (.cls rs) p [c2] q :=
+    fun rs p q h => (Matches_cls_iff _ _ _ _).mpr ⟨c2, rfl, h⟩
+  rcases ruleEsc_cases c2 (k, hex) hr with ⟨e, hc⟩ | ⟨e, hc⟩ | ⟨e, hc⟩ | ⟨e, hc⟩ | ⟨e, hc⟩ <;>
+    (injection e with e1 e2; subst e1; subst e2)
+  · have : args = [] := List.length_eq_zero_iff.mp hl
+    subst this
+    exact Or.inl (hcls _ _ _ hc)
+  · refine Or.inr (Or.inl ?_)
+    refine (Matches_rep_cls _ _ _ _ _ _).mpr ⟨by simp [hl], (by intro M hM; injection hM with hM; simp [hl]; omega), ?_⟩
+    intro c hcm
+    simp only [List.mem_cons] at hcm
+    rcases hcm with rfl | hcm
+    · exact hc
+    · exact digitsOK_cok_oct args hd c hcm
+  · exact Or.inr (Or.inr (Or.inl ⟨[c2], args, rfl, hcls _ _ _ hc, rep_cls_exact hl (digitsOK_cok_hex args hd)⟩))
+  · exact Or.inr (Or.inr (Or.inr (Or.inl ⟨[c2], args, rfl, hcls _ _ _ hc, rep_cls_exact hl (digitsOK_cok_hex args hd)⟩)))
+  · exact Or.inr (Or.inr (Or.inr (Or.inr ⟨[c2], args, rfl, hcls _ _ _ hc, rep_cls_exact hl (digitsOK_cok_hex args hd)⟩)))
+
+theorem scanBody_run_inv (l : Bytes) (f : Nat) (tl body : Bytes) (hp : ∀ c ∈ l, plain c = true)
+    (h : Lexer.scanBody (f + l.length) (l ++ tl) = some body) :
+    ∃ b, Lexer.scanBody f tl = some b ∧ body = l ++ b := by
+  rw [scanBody_run l f tl hp] at h
+  cases hs : Lexer.scanBody f tl with
+  | none => rw [hs] at h; cases h
+  | some b =>
+    rw [hs] at h
+    simp only [Option.map_some, Option.some.injEq] at h
+    exact ⟨b, rfl, h.symm⟩
+
+/-- the body `scanBody` returns is a sequence of items of the regex (a rune of
+several bytes is ONE item: its bytes are all plain, so the byte-wise scan steps
+over them one by one), followed by the closing quote -/
+theorem scanBody_items_conv : ∀ (f : Nat) (s body : Bytes), Lexer.scanBody f s = some body →
+    ∃ rest, s = body ++ 0x22 :: rest ∧
+      ∀ pre, ∃ k, IterN (Matches itemRe) k pre body (0x22 :: rest) := by
+  intro f
+  induction f with
+  | zero => intro s body h; simp [Lexer.scanBody] at h
+  | succ f ih =>
+    intro s body h
+    cases s with
+    | nil => simp [Lexer.scanBody] at h
+    | cons c r =>
+      by_cases hq : (c == 0x22) = true
+      · have hc : c = 0x22 := eq_of_beq hq
+        subst hc
+        rw [scanBody_quote] at h
+        injection h with h
+        subst h
+        exact ⟨r, rfl, fun pre => ⟨0, rfl⟩⟩
+      · by_cases hb : (c == 0x5C) = true
+        · have hc : c = 0x5C := eq_of_beq hb
+          subst hc
+          unfold Lexer.scanBody at h
+          simp only [hq, Bool.false_eq_true, if_false, hb, if_true] at h
+          cases r with
+          | nil => simp at h
+          | cons c2 r2 =>
+            simp only at h
+            cases hr : Lexer.ruleEsc c2 with
+            | none => simp [hr] at h
+            | some kh =>
+              obtain ⟨k, hex⟩ := kh
+              simp only [hr] at h
+              split at h
+              · rename_i hcond
+                simp only [Bool.and_eq_true, beq_iff_eq] at hcond
+                cases hs : Lexer.scanBody f (r2.drop k) with
+                | none => simp [hs] at h
+                | some b' =>
+                  simp only [hs, Option.map_some, Option.some.injEq] at h
+                  subst h
+                  obtain ⟨rest, hrest, hit⟩ := ih _ _ hs
+                  refine ⟨rest, ?_, ?_⟩
+                  · have := List.take_append_drop k r2
+                    rw [hrest] at this
+                    simp only [List.cons_append, List.append_assoc, List.cons.injEq, true_and]
+                    exact this.symm
+                  · intro pre
+                    obtain ⟨j, hj⟩ := hit ((0x5C :: c2 :: r2.take k).reverse ++ pre)
+                    exact ⟨j + 1, 0x5C :: c2 :: r2.take k, b', by simp,
+                      esc_matches c2 k hex _ _ _ hr hcond.1 hcond.2, hj⟩
+              · cases h
+        · have hpl : plain c = true := by simp [plain, hq, hb]
+          by_cases hlt : c < 0x80
+          · rw [scanBody_plain f c r hpl] at h
+            cases hs : Lexer.scanBody f r with
+            | none => rw [hs] at h; cases h
+            | some b' =>
+              rw [hs] at h
+              simp only [Option.map_some, Option.some.injEq] at h
+              subst h
+              obtain ⟨rest, hrest, hit⟩ := ih _ _ hs
+              refine ⟨rest, by rw [hrest]; rfl, ?_⟩
+              intro pre
+              obtain ⟨j, hj⟩ := hit ([c].reverse ++ pre)
+              refine ⟨j + 1, [c], b', rfl, Or.inl ⟨c, b' ++ 0x22 :: rest, rfl, Or.inl ⟨hlt, plain_ascii c hpl, rfl⟩⟩, hj⟩
+          · -- a non-ASCII rune: all its bytes are plain
+            obtain ⟨hne, hall⟩ := rune_plain c r hlt
+            have hsplit := (List.take_append_drop (runeLen (c :: r)) (c :: r)).symm
+            have hlen : 1 ≤ ((c :: r).take (runeLen (c :: r))).length := by
+              cases hx : (c :: r).take (runeLen (c :: r)) with
+              | nil => exact absurd hx hne
+              | cons a t => simp
+            have hm := scanBody_mono' (g := f + ((c :: r).take (runeLen (c :: r))).length) (by omega) h
+            obtain ⟨b', hs, hbody⟩ := scanBody_run_inv _ f ((c :: r).drop (runeLen (c :: r))) body hall
+              (by rw [List.take_append_drop]; exact hm)
+            obtain ⟨rest, hrest, hit⟩ := ih _ _ hs
+            refine ⟨rest, ?_, ?_⟩
+            · rw [hbody, List.append_assoc, ← hrest]; exact hsplit
+            · intro pre
+              obtain ⟨j, hj⟩ := hit (((c :: r).take (runeLen (c :: r))).reverse ++ pre)
+              refine ⟨j + 1, (c :: r).take (runeLen (c :: r)), b', hbody, Or.inl ⟨c, r, ?_, Or.inr ⟨hlt, rfl⟩⟩, hj⟩
+              rw [← hrest]; exact hsplit.symm
+
+theorem string_matches_complete (w post : Bytes) (h : Lexer.matchString (w ++ post) = some w) :
+    Matches stringRe [] w post := by
+  unfold Lexer.matchString at h
+  split at h
+  · rename_i r heq
+    cases hs : Lexer.scanBody (r.length + 1) r with
+    | none => simp [hs] at h
+    | some body =>
+      simp only [hs, Option.map_some, Option.some.injEq] at h
+      obtain ⟨rest, hrest, hit⟩ := scanBody_items_conv _ _ _ hs
+      -- post = rest
+      have hpost : post = rest := by
+        rw [← h, hrest] at heq
+        simp only [List.cons_append, List.append_assoc, List.cons.injEq, true_and] at heq
+        have := List.append_cancel_left heq
+        simpa using this
+      subst hpost
+      obtain ⟨k, hk⟩ := hit ([0x22].reverse ++ ([].reverse ++ []))
+      rw [← h]
+      unfold stringRe
+      refine ⟨[], _, rfl, ⟨rfl, rfl⟩, [0x22], body ++ [0x22], rfl,
+        (Matches_cls_iff _ _ _ _).mpr ⟨0x22, rfl, by decide⟩,
+        body, [0x22], rfl, ⟨k, Nat.zero_le _, (by intro M hM; cases hM), by simpa using hk⟩,
+        (Matches_cls_iff _ _ _ _).mpr ⟨0x22, rfl, by decide⟩⟩
+  · cases h
+
+theorem string_matches_iff (w post : Bytes) :
+    Matches stringRe [] w post ↔ Lexer.matchString (w ++ post) = some w :=
+  ⟨string_matches_sound w post, string_matches_complete w post⟩
+
+theorem matchString_prefix' (s w : Bytes) (h : Lexer.matchString s = some w) : ∃ post, s = w ++ post := by
+  unfold Lexer.matchString at h
+  split at h
+  · rename_i r
+    cases hs : Lexer.scanBody (r.length + 1) r with
+    | none => simp [hs] at h
+    | some body =>
+      simp only [hs, Option.map_some, Option.some.injEq] at h
+      obtain ⟨rest, hrest, _⟩ := scanBody_items_conv _ _ _ hs
+      exact ⟨rest, by rw [← h, hrest]; simp⟩
+  · cases h
+
+/-- For every input the hand-written string recogniser returns exactly what
+the leftmost-first matcher returns for the AST of the string rule's regex. -/
+theorem pmatch_stringRe (s : Bytes) : pmatch stringRe s = Lexer.matchString s :=
+  pmatch_eq_of_unique stringRe Lexer.matchString matchString_prefix' string_matches_iff s
+
+/-- For a regex decided by a recogniser `f` (as in `pmatch_eq_of_unique`) the
+priority-ordered enumeration of matches at position 0 has at most one element:
+the leftmost-first preference has nothing to choose between. -/
+theorem ends_unique (r : Re) (f : Bytes → Option Bytes)
+    (hiff : ∀ w post, Matches r [] w post ↔ f (w ++ post) = some w) (s : Bytes) :
+    ∀ x ∈ ends r [] s, ∀ y ∈ ends r [] s, x = y := by
+  intro x hx y hy
+  obtain ⟨p1, r1⟩ := x
+  obtain ⟨p2, r2⟩ := y
+  obtain ⟨w1, hs1, hp1, hm1⟩ := (mem_ends_iff r [] s p1 r1).mp hx
+  obtain ⟨w2, hs2, hp2, hm2⟩ := (mem_ends_iff r [] s p2 r2).mp hy
+  have h1 := (hiff w1 r1).mp hm1
+  have h2 := (hiff w2 r2).mp hm2
+  rw [← hs1] at h1
+  rw [← hs2, h1] at h2
+  injection h2 with h2
+  subst h2
+  have : r1 = r2 := List.append_cancel_left (hs1.symm.trans hs2)
+  subst this
+  rw [hp1, hp2]
 
 end Martian.LexerRegex
